@@ -16,6 +16,10 @@ P <backend:scan|scansplit|sel> <cat:dns|sub|node|subnode> <alias:0|1> geo labels
       → opt=<prog after the pipeline | err> split=<#rules of the category | - | err>
 q <bits|-> <gbits|->
       → dec=<id.mark.must | err> spec=<id.mark.must>
+pipeline <site:traffic|dnsreq|dnsresp|daedns> <optimizer type names, comma separated, as found in the source>
+      → pipeline=<the list the theorems are about>
+N prog | prog
+      → nf=<0|1>        (`nfEqP`: same up to value order/multiplicity and condition order)
 ```
 `bits` gives the truth value of every atom of the `A` table for this packet, `gbits` the value of the
 guard of every name in `GN`.  `dec` is the model of the compiled program (pipeline, split, lowering,
@@ -228,6 +232,17 @@ def handle (st : Option Ctx) (line : String) : Option Ctx × String :=
           | none => "err"
       (some c, s!"opt={o} split={sp}")
     | none => (none, "bad-op")
+  | ["pipeline", site, _] =>
+    -- which optimizer list the theorems cover for this call site
+    (st, "pipeline=" ++ ",".intercalate (if site == "traffic" then trafficStages else dnsStages))
+  | "N" :: rest =>
+    -- `N progA | progB` → are the two programs equal up to value order/multiplicity and condition order?
+    match pProg rest with
+    | some (a, "|" :: rest') =>
+      match pProg rest' with
+      | some (b, []) => (st, "nf=" ++ boolStr (nfEqP a b))
+      | _ => (st, "bad-op")
+    | _ => (st, "bad-op")
   | ["q", bits, gbits] =>
     match st with
     | some c =>
